@@ -422,7 +422,7 @@ def check_C12(P, tier):
 # --------------------------------------------------------------------------
 # C14 drivers
 
-from interp import GenList, PyList, Unknown
+from interp import GenList, PyList, Unknown, has_unknown
 import props_wiring as pw
 
 
@@ -455,6 +455,14 @@ def _driver_config(P, use_cache=False):
     return CM.make_obj(P, "BLDFMConfig", "config", ov)
 
 
+def _unk(pred, v):
+    """a failed comparison on a value the interpreter could not model completely is 'uninterpretable', not a violation"""
+    ok, why = pred(v)
+    if not ok and has_unknown(v):
+        return None, "not modelled: " + str(why)
+    return ok, why
+
+
 def _expect_series(tower, nsteps, flux, cache_name):
     """predicate: value is [single(tower, i, flux, cache) for i in range(n_steps)]"""
     def check(v):
@@ -472,6 +480,37 @@ def _expect_series(tower, nsteps, flux, cache_name):
     return check
 
 
+def step_state_obligations(res, site, tag):
+    """R-STEP-INDEP: a mapping that the step loop both fills and consults carries state from one step to the next; that is only harmless
+    when its key names the step (contains the loop index itself), otherwise a step can be answered with another step's result"""
+    obs = []
+    n = 0
+    for r in res:
+        reads = {e[2][1] for e in r.events if e[0] == "loop-dict-read"}
+        for e in r.events:
+            if e[0] != "loop-dict-store" or e[2][3] not in reads:
+                continue
+            key, val, L = e[2][0], e[2][1], e[2][2]
+            comps = key.items if isinstance(key, Tup) else [key]
+            iv = alg.atom_expr(L.ivar)
+            names = False
+            for c in comps:
+                if isinstance(c, Expr):
+                    try:
+                        d = c.diff(L.ivar)
+                    except Exception:
+                        d = None
+                    if d is not None and d.as_const() is not None and d.as_const() != 0:
+                        names = True
+            n += 1
+            obs.append(req_ob("R-STEP-INDEP", site, "a mapping filled and consulted inside the step loop is keyed by the step itself (%s)" % tag, names,
+                              detail=None if names else "line %s: the key %s does not contain the loop index, so a later step with an equal key is answered from an earlier step's entry" % (getattr(e[1], "lineno", "?") if not isinstance(e[1], int) else e[1], repr(key)[:160]),
+                              key={"driver": tag}))
+    if n == 0:
+        obs.append(req_ob("R-STEP-INDEP", site, "no mapping is both filled and consulted inside a step loop: steps share no state (%s)" % tag, True))
+    return obs
+
+
 def driver_obligations(P):
     obs = []
     nsteps = alg.sym("n_steps", pos=True, integer=True)
@@ -484,10 +523,11 @@ def driver_obligations(P):
         res = CM.run_paths(P, "bldfm.interface", "run_bldfm_timeseries", [cfg, tower], {"surface_flux": flux}, stubs={"bldfm.interface.run_bldfm_single": _single_stub(log)})
         rets = [r for r in res if r.kind == "return"]
         ok1 = len(res) == 1 and len(rets) == 1
+        obs.extend(step_state_obligations(res, site_ts, "timeseries, use_cache=%s" % use_cache))
         obs.append(req_ob("R-SERIAL", site_ts, "one straight path (use_cache=%s)" % use_cache, ok1, detail=str([(r.kind, r.raise_desc, r.path) for r in res])[:300]))
         if ok1:
             cname = "None" if not use_cache else "bldfm.cache.GreensFunctionCache"
-            ok, why = _expect_series(tower, nsteps, flux, cname)(rets[0].value)
+            ok, why = _unk(_expect_series(tower, nsteps, flux, cname), rets[0].value)
             obs.append(req_ob("R-SERIAL", site_ts, "returns the single runs of this tower for met_index = 0..n_timesteps-1, in time order, with the supplied flux (use_cache=%s)" % use_cache, ok, detail=why, key={"driver": "timeseries"}))
             cfgs = [b["config"] is cfg and b["tower"] is tower for b, _, _, _ in log]
             obs.append(req_ob("R-SERIAL", site_ts, "every single run gets the driver's own configuration and tower", bool(cfgs) and all(cfgs)))
@@ -499,6 +539,7 @@ def driver_obligations(P):
     res = CM.run_paths(P, "bldfm.interface", "run_bldfm_multitower", [cfg], {"surface_flux": flux}, stubs={"bldfm.interface.run_bldfm_single": _single_stub(log)})
     rets = [r for r in res if r.kind == "return"]
     ok1 = len(res) == 1 and len(rets) == 1 and isinstance(rets[0].value, Tup) and rets[0].value.kind == "dict"
+    obs.extend(step_state_obligations(res, site_mt, "multitower"))
     obs.append(req_ob("R-SERIAL", site_mt, "returns a mapping", ok1))
     towers = cfg.attrs["towers"].items
     if ok1:
@@ -506,7 +547,7 @@ def driver_obligations(P):
         okk = len(items) == len(towers) and all(pw.same_value(k, t.attrs["name"]) for (k, _), t in zip(items, towers))
         obs.append(req_ob("R-SERIAL", site_mt, "results are keyed by tower name in configuration order", okk, detail=repr([k for k, _ in items])[:200]))
         for (k, v), t in zip(items, towers):
-            ok, why = _expect_series(t, nsteps, flux, "None")(v)
+            ok, why = _unk(_expect_series(t, nsteps, flux, "None"), v)
             obs.append(req_ob("R-SERIAL", site_mt, "each entry is the time series of its own tower", ok, detail=why, key={"driver": "multitower"}))
     # parallel
     site_p = "src/bldfm/interface.py::run_bldfm_parallel"
@@ -546,6 +587,7 @@ def driver_obligations(P):
         res = CM.run_paths(P, "bldfm.interface", "run_bldfm_parallel", [cfg], {"max_workers": alg.sym("workers", pos=True, integer=True), "parallel_over": strategy}, stubs=stubs)
         rets = [r for r in res if r.kind == "return"]
         okp = len(res) == 1 and len(rets) == 1 and isinstance(rets[0].value, Tup) and rets[0].value.kind == "dict"
+        obs.extend(step_state_obligations(res, site_p, "parallel over %s" % strategy))
         obs.append(req_ob("R-ORDERED", site_p, "strategy %r returns a mapping on a single path" % strategy, okp, detail=str([(r.kind, r.raise_desc) for r in res])[:200]))
         only_map = bool(pool_calls) and all(k == "map" for k, _ in pool_calls)
         obs.append(req_ob("R-ORDERED", site_p, "strategy %r distributes work only through Executor.map (results in task order whatever the completion order)" % strategy, only_map, detail=str([k for k, _ in pool_calls])))
@@ -554,7 +596,7 @@ def driver_obligations(P):
             okk = len(items) == len(towers) and all(pw.same_value(k, t.attrs["name"]) for (k, _), t in zip(items, towers))
             obs.append(req_ob("R-ORDERED", site_p, "strategy %r: results keyed by tower name in configuration order" % strategy, okk, detail=repr([k for k, _ in items])[:200]))
             for (k, v), t in zip(items, towers):
-                ok, why = _expect_series(t, nsteps, None, "None")(v)
+                ok, why = _unk(_expect_series(t, nsteps, None, "None"), v)
                 obs.append(req_ob("R-ORDERED", site_p, "strategy %r: the entry of a tower is the time-ordered list of its own single runs" % strategy, ok, detail=why, key={"strategy": strategy}))
             mis = [e for e in rets[0].events if e[0] == "misaligned-slice"]
             obs.append(req_ob("R-ORDERED", site_p, "strategy %r: flat results are re-assembled at the task boundaries" % strategy, not mis, detail=str(mis[:1]) if mis else None))
